@@ -59,6 +59,18 @@
 //!     items: the re-open may fail as a whole, but if it succeeds its counters must equal what it serves.
 //!  S10 several threads read a ~9 MiB item for the FIRST time after a re-open (unverified entry) while one bit near the end of its
 //!     file is flipped, started 0.3 ms apart: nobody may get a hit (the crc of the whole file is wrong); 3 rounds.
+//!  S11 one key holding 3..5 ranges whose in-memory order is NOT sorted by range: every put order of the three ranges [10,12), [0,2),
+//!     [5,7), two 5-range orders, and "one item loaded by a re-open, then lower / higher ranges put"; for every item of the key in
+//!     turn: (i) its file deleted while the cache is open, (ii) one bit flipped while closed + re-open (list in readdir order);
+//!     then get of the item, of a sub-range, a covered put of identical data, gets of the other items: miss / error for the
+//!     damaged one, correct hits for the others, counters == directory afterwards - and every call RETURNS.
+//!  S12 early-stop re-open: 45 items of 9 keys put under a huge capacity; re-opened with a capacity so small that the directory
+//!     holds >= 2x of it (the scan stops early); every file bit-flipped (variant A) / deleted while open (variant B) / intact
+//!     (variant C); then EVERYTHING is read first (all loaded entries heal or stay), then every item is put again, then read
+//!     again; then 40 fresh items are put (evictions).  Judged: no panic, no lock left poisoned (a later call must not fail with
+//!     an error where data was just put), no wrong data, every call returns; the totals are NOT judged (capacity changed).
+//!  WATCHDOG every call into the cache code (all scenarios) is registered while it runs; a call that has not returned after 25 s
+//!     is reported as `WITNESS <call> did not return within 25 s` (C12: a damaged entry turns into a miss or an error).
 //!  S5 (last, can be skipped with VERIF_C12_SKIP_FOREIGN_DIRS=1) directories with foreign names inside a prefix directory.
 //!
 //! Deterministic inputs from VERIF_SEED (default 0); thread schedules are whatever the machine produces, so the races are
@@ -163,8 +175,31 @@ fn panic_msg(p: Box<dyn std::any::Any + Send>) -> String {
         "<non-string panic payload>".into()
     }
 }
+/// calls into the cache code that are running right now: (thread, since, description); see `start_watchdog`
+static IN_FLIGHT: std::sync::Mutex<Vec<(std::thread::ThreadId, Instant, String)>> = std::sync::Mutex::new(Vec::new());
+const CALL_TIMEOUT: Duration = Duration::from_secs(25);
+fn start_watchdog() {
+    std::thread::spawn(|| loop {
+        std::thread::sleep(Duration::from_millis(250));
+        let stuck = IN_FLIGHT.lock().ok().and_then(|v| v.iter().find(|c| c.1.elapsed() > CALL_TIMEOUT).map(|c| c.2.clone()));
+        if let Some(what) = stuck {
+            println!("WITNESS {} did not return within {} s: neither a hit, a miss nor an error", what.replace('\n', " "), CALL_TIMEOUT.as_secs());
+            std::process::exit(1);
+        }
+    });
+}
 fn guarded<T>(what: &str, f: impl FnOnce() -> T) -> Result<T, String> {
-    catch_unwind(AssertUnwindSafe(f)).map_err(|p| format!("{what}: the cache code panicked: {}", panic_msg(p)))
+    let me = std::thread::current().id();
+    if let Ok(mut v) = IN_FLIGHT.lock() {
+        v.push((me, Instant::now(), what.to_string()));
+    }
+    let r = catch_unwind(AssertUnwindSafe(f));
+    if let Ok(mut v) = IN_FLIGHT.lock() {
+        if let Some(i) = v.iter().rposition(|c| c.0 == me) {
+            v.remove(i);
+        }
+    }
+    r.map_err(|p| format!("{what}: the cache code panicked: {}", panic_msg(p)))
 }
 fn open(dir: &Path, capacity: u64, ctx: &str) -> Result<Option<DiskCache>, String> {
     let cfg = CacheConfig { cache_directory: dir.to_path_buf(), cache_size: capacity };
@@ -1545,6 +1580,222 @@ fn s10_concurrent_first_reads(seed: u64) -> W {
     Ok(())
 }
 
+/// S11: healing of one item of a key whose item list is not sorted by range
+fn s11_unsorted_key_lists(seed: u64) -> W {
+    let cap = 1u64 << 20;
+    let three = [(10u32, 12u32), (0, 2), (5, 7)];
+    let mut orders: Vec<(String, Vec<(u32, u32)>, usize)> = Vec::new(); // (name, put order, number of leading puts followed by a re-open)
+    for p in [[0usize, 1, 2], [0, 2, 1], [1, 0, 2], [1, 2, 0], [2, 0, 1], [2, 1, 0]] {
+        let o: Vec<(u32, u32)> = p.iter().map(|i| three[*i]).collect();
+        orders.push((format!("puts in the order {o:?}"), o, 0));
+    }
+    orders.push(("puts in the order [(20,22), (0,2), (30,33), (10,12), (5,7)]".into(), vec![(20, 22), (0, 2), (30, 33), (10, 12), (5, 7)], 0));
+    orders.push(("puts in the order [(30,33), (20,22), (10,12), (5,7), (0,2)]".into(), vec![(30, 33), (20, 22), (10, 12), (5, 7), (0, 2)], 0));
+    orders.push(("put [10,12), cache re-opened (the item is loaded by the scan), then puts of [0,2) and [5,7)".into(), vec![(10, 12), (0, 2), (5, 7)], 1));
+    orders.push(("puts of [5,7) and [10,12), cache re-opened, then puts of [0,2) and [20,22)".into(), vec![(5, 7), (10, 12), (0, 2), (20, 22)], 2));
+    let mut kcount = 0u64;
+    for (oname, order, reopen_after) in &orders {
+        for victim in 0..order.len() {
+            for fault in ["its file is deleted while the cache is open", "one bit of its file is flipped while the cache is closed, then the cache is re-opened"] {
+                kcount += 1;
+                let k = { let b = 30000 + 1000 * seed + 3 * kcount; b - b % 3 + 1 }; // k % 3 == 1: chunks of at most 150 bytes
+                let dir = tmp();
+                let root = dir.path();
+                let ctx0 = format!("S11 seed {seed}: one key (key#{k}), {oname}");
+                let mut c = open_clean(root, cap, &ctx0)?;
+                let mut file_of: Vec<PathBuf> = Vec::new();
+                for (i, (a, b)) in order.iter().enumerate() {
+                    if *reopen_after != 0 && i == *reopen_after {
+                        drop(c);
+                        c = open_clean(root, cap, &ctx0)?;
+                    }
+                    let before: Vec<PathBuf> = files_below(root).into_iter().map(|f| f.0).collect();
+                    if !put(&c, k, *a, *b, &ctx0)? {
+                        infra(format!("{ctx0}: put [{a},{b}) failed"));
+                    }
+                    let Some(f) = files_below(root).into_iter().map(|f| f.0).find(|p| !before.contains(p)) else { infra(format!("{ctx0}: put [{a},{b}) created no file")) };
+                    file_of.push(f);
+                }
+                for (a, b) in order {
+                    if !get(&c, k, *a, *b, true, &ctx0)? {
+                        infra(format!("{ctx0}: [{a},{b}) is not a hit before any damage"));
+                    }
+                }
+                let (va, vb) = order[victim];
+                let ctx = format!("{ctx0}; then for item [{va},{vb}): {fault}");
+                if fault.starts_with("its file is deleted") {
+                    std::fs::remove_file(&file_of[victim]).unwrap_or_else(|e| infra(format!("S11: {e}")));
+                } else {
+                    drop(c);
+                    let len = std::fs::metadata(&file_of[victim]).map(|m| m.len()).unwrap_or(1);
+                    flip(&file_of[victim], 8 * (len - 1) + seed % 8);
+                    c = match open(root, cap, &ctx)? {
+                        Some(c) => c,
+                        None => continue,
+                    };
+                }
+                // the damaged item: every call returns (watchdog), no hit
+                if get(&c, k, va, vb, true, &ctx)? {
+                    return Err(format!("{ctx}: get(key#{k}, [{va},{vb})) is a hit although the file no longer holds what was put"));
+                }
+                get(&c, k, va + 1, vb, true, &ctx)?;
+                // the others are untouched
+                for (i, (a, b)) in order.iter().enumerate() {
+                    if i != victim && !get(&c, k, *a, *b, true, &ctx)? {
+                        return Err(format!("{ctx}: afterwards the untouched item [{a},{b}) of the same key is no longer a hit"));
+                    }
+                }
+                // covered put of identical data (goes through the validation of the stored item), then read back
+                let ctx = format!("{ctx}; get of it missed; the identical item is put again");
+                put(&c, k, va, vb, &ctx)?;
+                if !get(&c, k, va, vb, true, &ctx)? {
+                    return Err(format!("{ctx}: it is not a hit"));
+                }
+                check_accounting(&c, root, Some(cap), &ctx)?;
+            }
+        }
+    }
+    // the same with the healing triggered by a covered PUT instead of a get (file deleted while open)
+    for p in [[0usize, 1, 2], [2, 0, 1]] {
+        let order: Vec<(u32, u32)> = p.iter().map(|i| three[*i]).collect();
+        for victim in 0..3 {
+            let k = 31000 + 1000 * seed + 30 * victim as u64 + 3 * p[0] as u64 + 1;
+            let k = k - k % 3 + 1;
+            let dir = tmp();
+            let root = dir.path();
+            let ctx0 = format!("S11 seed {seed}: one key (key#{k}), puts in the order {order:?}");
+            let c = open_clean(root, cap, &ctx0)?;
+            let mut file_of = Vec::new();
+            for (a, b) in &order {
+                let before: Vec<PathBuf> = files_below(root).into_iter().map(|f| f.0).collect();
+                put(&c, k, *a, *b, &ctx0)?;
+                file_of.push(files_below(root).into_iter().map(|f| f.0).find(|p| !before.contains(p)).unwrap_or_else(|| infra("S11: no file".into())));
+            }
+            let (va, vb) = order[victim];
+            std::fs::remove_file(&file_of[victim]).unwrap_or_else(|e| infra(format!("S11: {e}")));
+            let ctx = format!("{ctx0}; the file of [{va},{vb}) is deleted while the cache is open; the identical item is put again (a covered put)");
+            put(&c, k, va, vb, &ctx)?;
+            if !get(&c, k, va, vb, true, &ctx)? {
+                return Err(format!("{ctx}: afterwards get [{va},{vb}) is not a hit"));
+            }
+            check_accounting(&c, root, Some(cap), &ctx)?;
+        }
+    }
+    Ok(())
+}
+
+/// S12: the re-open scan stops early (directory >= 2x the capacity it is opened with); everything loaded heals / is evicted
+fn s12_early_stop_then_heal(seed: u64) -> W {
+    let big = 1u64 << 30;
+    for variant in ["every file bit-flipped while closed", "every file deleted while the cache is open", "files intact"] {
+        let dir = tmp();
+        let root = dir.path();
+        let mut items = Vec::new();
+        let mut rng = Rng(mix(seed, 0x512));
+        let ctx0 = "S12 fill".to_string();
+        let c = open_clean(root, big, &ctx0)?;
+        for j in 0..9u64 {
+            let k = { let b = 40000 + 100 * seed + 3 * j; b - b % 3 + 1 }; // k % 3 == 1: chunks of at most 150 bytes
+            let mut s0 = rng.below(3) as u32;
+            for _ in 0..5 {
+                let e0 = s0 + 2 + rng.below(6) as u32;
+                put(&c, k, s0, e0, &ctx0)?;
+                items.push((k, s0, e0));
+                s0 = e0 + 1 + rng.below(3) as u32;
+            }
+        }
+        drop(c);
+        let files = files_below(root);
+        let bytes: u64 = files.iter().map(|f| f.1).sum();
+        let small = (bytes / 8).max(1500);
+        if files.len() != items.len() || bytes < 2 * small || items.iter().any(|(k, a, b)| item_size_bound(*k, *a, *b) > small) {
+            infra(format!("S12: {} files / {bytes} bytes for {} items, small capacity {small}", files.len(), items.len()));
+        }
+        if variant.starts_with("every file bit-flipped") {
+            for (i, f) in files.iter().enumerate() {
+                flip(&f.0, mix(seed ^ 0x12, i as u64));
+            }
+        }
+        let ctx = format!(
+            "S12 seed {seed}: {} items of 9 keys ({bytes} bytes) put under capacity {big}; cache closed; {variant}; re-opened with capacity {small} (the directory holds {}x of it, the scan stops early)",
+            items.len(),
+            bytes / small
+        );
+        let Some(c) = open(root, small, &ctx)? else { continue };
+        if variant.starts_with("every file deleted") {
+            for f in &files {
+                let _ = std::fs::remove_file(&f.0);
+            }
+        }
+        // phase 1: read EVERYTHING before anything is put
+        let ctx1 = format!("{ctx}; every item is read first");
+        let mut hits = 0;
+        for &(k, a, b) in &items {
+            if get(&c, k, a, b, true, &ctx1)? {
+                hits += 1;
+                if variant != "files intact" {
+                    return Err(format!("{ctx1}: get(key#{k}, [{a},{b})) is a hit although its file was damaged / deleted"));
+                }
+            }
+        }
+        let _ = counters(&c, &ctx1)?; // must not panic / fail (a poisoned lock shows here)
+        // phase 2: put everything again, phase 3: read again
+        let ctx2 = format!("{ctx1} ({hits} hits), then every item is put again");
+        let mut accepted = Vec::new();
+        for &(k, a, b) in &items {
+            if put(&c, k, a, b, &ctx2)? {
+                accepted.push((k, a, b));
+            }
+        }
+        if accepted.len() * 2 < items.len() {
+            return Err(format!("{ctx2}: only {} of {} puts of well-formed items were accepted (the cache stopped working)", accepted.len(), items.len()));
+        }
+        let ctx3 = format!("{ctx2}, then read again");
+        for &(k, a, b) in &items {
+            get(&c, k, a, b, true, &ctx3)?;
+        }
+        // phase 4: fresh items (evictions of whatever is tracked)
+        let ctx4 = format!("{ctx3}; then 40 fresh items are put");
+        let fresh_key = |j: u64| { let b = 41000 + 100 * seed + 3 * (j % 10); b - b % 3 + 1 };
+        let (mut ok, mut tried) = (0, 0);
+        for j in 0..40u64 {
+            let k = fresh_key(j);
+            let a = 10 * (j / 10) as u32;
+            if item_size_bound(k, a, a + 5) > small {
+                continue;
+            }
+            tried += 1;
+            if put(&c, k, a, a + 5, &ctx4)? {
+                ok += 1;
+                if !get(&c, k, a, a + 5, true, &ctx4)? {
+                    return Err(format!("{ctx4}: get(key#{k}, [{a},{})) right after its put is not a hit", a + 5));
+                }
+            }
+        }
+        if tried < 20 {
+            infra(format!("S12: only {tried} fresh items fit the small capacity {small}"));
+        }
+        if ok * 2 < tried {
+            return Err(format!("{ctx4}: only {ok} of {tried} puts of well-formed items were accepted (the cache stopped working)"));
+        }
+        let (n, b) = counters(&c, &ctx4)?;
+        if n > usize::MAX / 2 || b > u64::MAX / 2 {
+            return Err(format!("{ctx4}: counters wrapped around: num_items()={n} total_bytes()={b}"));
+        }
+        // and the directory re-opens
+        drop(c);
+        let ctx5 = format!("{ctx4}; re-opened once more with capacity {small}");
+        if let Some(c) = open(root, small, &ctx5)? {
+            for j in 0..40u64 {
+                let k = fresh_key(j);
+                let a = 10 * (j / 10) as u32;
+                get(&c, k, a, a + 5, true, &ctx5)?;
+            }
+        }
+    }
+    Ok(())
+}
+
 /// S5: directories with foreign names inside a prefix directory (`<p>` = the 2-character name of the prefix directory):
 /// `<p>AA` is valid base64 of 3 bytes, i.e. shorter than a key; the other two do not start with `<p>`.
 /// All violations found are reported together.
@@ -1636,6 +1887,14 @@ fn run(seed: u64) -> W {
         s10_concurrent_first_reads(seed)?;
         eprintln!("S10 done at {:?}", t.elapsed());
     }
+    if on("S11") {
+        s11_unsorted_key_lists(seed)?;
+        eprintln!("S11 done at {:?}", t.elapsed());
+    }
+    if on("S12") {
+        s12_early_stop_then_heal(seed)?;
+        eprintln!("S12 done at {:?}", t.elapsed());
+    }
     if on("S5") && std::env::var("VERIF_C12_SKIP_FOREIGN_DIRS").map_or(true, |v| v != "1") {
         s5_foreign_directories(seed)?;
     }
@@ -1645,6 +1904,7 @@ fn run(seed: u64) -> W {
 fn main() {
     let seed: u64 = std::env::var("VERIF_SEED").ok().and_then(|s| s.parse().ok()).unwrap_or(0);
     std::panic::set_hook(Box::new(|info| eprintln!("panic: {info}")));
+    start_watchdog();
     match catch_unwind(|| run(seed)) {
         Ok(Ok(())) => println!("no violation found"),
         Ok(Err(w)) => {
